@@ -3,6 +3,8 @@ package impl
 import (
 	"context"
 
+	"github.com/ipld/go-ipld-prime/datamodel"
+
 	datatransfer "github.com/filecoin-project/go-data-transfer/v2"
 	"github.com/filecoin-project/go-data-transfer/v2/channels"
 	"github.com/filecoin-project/go-data-transfer/v2/message/types"
@@ -18,6 +20,12 @@ func VerifC19_RecordAfterSend() {
 	f.net.MayFail = true
 	pre := st
 	tv := datatransfer.TypedVoucher{Voucher: zz.Node("new.node"), Type: datatransfer.TypeIdentifier(zz.String("new.type"))}
+	if zz.Bool("nullPayload") {
+		// a typed entry whose payload is IPLD null is still an entry ("empty" is decided by the type)
+		tv.Voucher = datamodel.Null
+		zz.Assume(tv.Type != datatransfer.EmptyTypeIdentifier)
+		zz.Reach("typed entry with a null payload")
+	}
 	selfInit := st.SelfPeer == st.Initiator
 	var err error
 	if selfInit {
